@@ -373,3 +373,26 @@ def consistent_length_mutations(blob: bytes, max_each=70) -> t.Iterator[bytes]:
         yield replace_content(blob, tree, idx, content + b"\x00")
         if cl:
             yield replace_content(blob, tree, idx, content[1:])
+
+
+def param_byte_sweep(blob: bytes, both_layouts=False) -> t.Iterator[bytes]:
+    """every octet of the content-encryption parameters (SEQUENCE { nonce, ICV length }) set to every other value, re-encoded consistently"""
+    import dataclasses
+
+    from dpapi_ng._blob import DPAPINGBlob
+
+    b = DPAPINGBlob.unpack(blob)
+    par = bytes(b.enc_content_parameters or b"")
+    for i in range(len(par)):
+        for v in range(256):
+            if v == par[i]:
+                continue
+            m = bytearray(par)
+            m[i] = v
+            try:
+                nb = dataclasses.replace(b, enc_content_parameters=bytes(m))
+                yield nb.pack()
+                if both_layouts:
+                    yield nb.pack(blob_in_envelope=False)
+            except Exception:  # noqa: BLE001
+                continue
